@@ -278,7 +278,8 @@ def has_brace(s: str) -> bool:
 
 # ----------------------------------------------------------------------------------------------------------
 NAMES = ["a", "b", "c", "xs", "ys", "flag", "name", "item", "index", "upper", "first", "last", "é1", "Big", "n_2"]
-FILTERS = ["upper", "lower", "trim", "title", "nofilter", "length", "json", "repr", "bang", "shout", "boom", "num"]
+FILTERS = ["upper", "lower", "trim", "title", "nofilter", "length", "json", "repr", "bang", "shout", "boom",
+           "again", "twice"]
 # custom filter sets an instance can be constructed with ("none" = a plain Ribosome()).  Some override a builtin,
 # some are named like one-word defaults used by the templates.
 CUSTOM = {
@@ -287,11 +288,30 @@ CUSTOM = {
     "over": {"upper": lambda x: "<<" + str(x).upper() + ">>", "anonymous": lambda x: "***",
              "shout": lambda x: str(x).upper() + "!", "none": lambda x: "-"},
     "dfl": {"dflt": lambda x: "D:" + str(x), "a b": lambda x: "AB", "title": lambda x: str(x)},
-    # callbacks that raise / return something that is not a str (re.sub then raises TypeError) / behave by value
-    "err": {"boom": lambda x: (_ for _ in ()).throw(RuntimeError("boom")), "num": lambda x: 7,
+    # callbacks that raise / return None (re.sub splices "") / behave by value.  NOT in the set: a callback returning a
+    # non-str non-None value - CPython's re.sub raises that TypeError only when it joins the pieces at the END of the
+    # pass, after every later callback has run (so a later callback's exception wins); the model's filters return str
+    # (assumption), a thorough run found the difference within 25 000 cases when `num: lambda x: 7` was in here.
+    "err": {"boom": lambda x: (_ for _ in ()).throw(RuntimeError("boom")),
             "lower": lambda x: x.lower(), "nofilter": lambda x: None, "trim": lambda x: str(x) if x else 1 // 0},
+    # RE-ENTRANT callbacks: the filter renders another template while a render is going on.  Here the reference
+    # versions (a fresh plain instance per call = what a renderer without per-instance render state gives); an instance
+    # constructed with this set gets versions that call back into THAT instance (run_impl, `new`).
+    "reent": {"again": lambda x: _reent_ref("again", x), "twice": lambda x: _reent_ref("twice", x)},
 }
-SETS = ["bang", "bang", "none", "none", "over", "dfl", "err"]
+INNER = "<{{a}}|{{?b}}|{{#if a}}T{{#else}}E{{/if}}>"
+INNER2 = "[{{a|again}}]"
+_REENT = {}
+
+
+def _reent_ref(which, x):
+    m = _REENT["m"]
+    if which == "again":
+        return m.Ribosome(silent=True).synthesize(INNER, a=x, b="B").sequence
+    return m.Ribosome(silent=True, filters={"again": lambda y: _reent_ref("again", y)}).synthesize(INNER2, a=x).sequence
+
+
+SETS = ["bang", "bang", "none", "none", "over", "dfl", "err", "reent"]
 TEXTS = ["hello ", "x", "\n", " - ", "", "|", "plain", "t", "é", "a b", "#if a", ">t0", ": ", "\ud800", "\x85", "²"]
 BTEXTS = ["{ }", "}{", "{\"k\": \"", "\"}", "{", "}", "{a}", "[{", "}]"]
 SAFE_VALS = ["v", "Hello World", " sp ", 0, 5, "", True, False, None, "a|b", "x y", "é", "#if a", ">t0", "?b",
@@ -397,6 +417,7 @@ class C12(Prop):
         import_repo()
         from operon_ai.organelles import ribosome as m
         self.m = m
+        _REENT["m"] = m
         # the documented builtin filters, taken before any instance exists (a tree that lets instances write into the
         # class-level table must not be able to change what the reference considers "given")
         self.builtin = dict(m.Ribosome.BUILTIN_FILTERS)
@@ -685,6 +706,13 @@ class C12(Prop):
                                          ("new", 1, True, "over"), ("render", 1, TQ), ("filt", 1, "none"), ("strict", 1, False),
                                          ("render", 1, TQ), ("render", 0, TQ)],
                                    "strict / filters re-assigned on a live instance take effect at the next render"))
+        for strict in (False, True):
+            for top in ("{{name|again}} {{name}} {{zz}} {{name|twice}} {{yy}}", "{{#each xs}}{{item}}{{/each}}{{name|twice}}{{>hdr}}",
+                        "{{>hdr}}{{name|again}}{{>hdr}}"):
+                hist.append(self.hcase({"name": "alice", "xs": ["p", "q"], "q": 1},
+                                       [("new", 0, strict, "reent"), ("tmpl", 0, "hdr", "<{{name|again}}{{?q}}>"),
+                                        ("render", 0, top), ("translate", 0, "hdr"), ("render", 0, top)],
+                                       "a filter that renders on the same instance while it is rendering (re-entrancy)"))
         # registration probes: every way of getting templates into an instance, keys equal to / different from the
         # mRNA's own name, aliases, nameless values; includes and translate(name) resolve by the caller's key
         regs = []
@@ -824,6 +852,9 @@ class C12(Prop):
                 obs.append("ok")
             elif op == "new" and len(t) >= 4 and t[3] in CUSTOM:
                 custom = dict(CUSTOM[t[3]])
+                if t[3] == "reent":      # the callbacks render on the very instance that is rendering
+                    custom["again"] = lambda x, _i=t[1]: insts[_i].synthesize(INNER, a=x, b="B").sequence
+                    custom["twice"] = lambda x, _i=t[1]: insts[_i].synthesize(INNER2, a=x).sequence
                 objs, mapping = {}, {}
                 for e in t[4:]:
                     k, mn, sq = (unhexs(x) for x in e.split(":"))
